@@ -70,6 +70,11 @@ def correspondence(ctx):
             # the caller laps the round input buffer while the first job loaded after the previous wrap is still stalled (preset 6: long stall + patient caller)
             "mt 2 100=5,401=1048576,402=6,101=20 12000000 13 12000000 8000000 6 84 -1 0 1", "mt 3 100=3,401=1048576,402=5,101=21,201=1 16000000 14 300000 100000 6 85 -1 0 1",
             "mt 2 100=1,401=524288,402=4,201=1 9000000 15 9000000 8000000 6 86 -1 0 2"]
+    # long-distance matching inside ONE multi-MiB job: 1 MiB chunks without any match (not only the first of the job) before a chunk with one
+    for k in range(4 if quick else 40):
+        jmb = rng.choice([3, 4, 4, 5]); sd = (1 << 40) | rng.randrange(1 << 25)
+        ops.append("mt %d 100=%d,160=1,401=%d%s %d %d %d 8000000 %d %d -1 0 1" % (rng.choice([1, 1, 2]), rng.choice([1, 3]), jmb << 20, rng.choice(["", ",201=1"]),
+                                                                              (jmb << 20) + rng.randint(1000, 200000), sd, rng.choice([1 << 20, 6000000]), rng.choice([0, 1]), rng.randrange(1 << 30)))
     res = run_all(hx("plain"), ops)
     logs, meta = [], []
     stats = dict(frames=0, events=0, hangs=0)
